@@ -114,6 +114,58 @@ def mutable_reason(ctx, f: FuncInfo, e: ast.Attribute) -> str | None:
     return None
 
 
+SHALLOW_COPIES = ("copy.copy",)
+
+
+def _class_fields(c: ClassInfo, repo) -> set[str]:
+    out = set()
+    for k in repo.mro(c):
+        if not isinstance(k, ClassInfo) or k.external:
+            continue
+        out |= set(k.slots or ()) | set(k.ann_fields)
+        init = k.methods.get("__init__")
+        if init is not None:
+            for n in own_nodes(init.node):
+                if isinstance(n, (ast.Assign, ast.AnnAssign)):
+                    for t in n.targets if isinstance(n, ast.Assign) else [n.target]:
+                        if isinstance(t, ast.Attribute) and norm(t.value) == "self":
+                            out.add(t.attr)
+    return out
+
+
+def shallow_copy_shares(ctx, f: FuncInfo, e: ast.Attribute) -> str | None:
+    """`copy.copy(<original>.<field>)` gives a new outer object whose own fields still point at the original's
+    sub-objects: name a sub-field whose declared class is mutable, if there is one."""
+    repo = ctx.repo
+    for c in ctx.typer.recv_classes(f, e.value):
+        ann, mod = _field_annotation(ctx, c, e.attr)
+        if ann is None:
+            continue
+        todo = []
+        for a in ctx.typer.ann(ann, mod):
+            if a[0] == "cls":
+                k = a[1]
+                todo += [s for s in repo.subclasses(k) if not s.name.endswith("Protocol")] if k.name.endswith("Protocol") else [k]
+        for k in todo:
+            for fld in sorted(_class_fields(k, repo)):
+                fa, fm = _field_annotation(ctx, k, fld)
+                if fa is None:
+                    continue
+                text = norm(fa)
+                if any(x in text for x in ("dict[", "list[", "set[", "MutableSequence", "MutableMapping")):
+                    return f"{k.name}.{fld} is declared `{text}` (mutable container)"
+                for b in ctx.typer.ann(fa, fm):
+                    if b[0] == "cls" and class_is_mutable(ctx, b[1]):
+                        return f"{k.name}.{fld} is declared `{text}` and class {b[1].name} is mutable"
+    return None
+
+
+def _shallow_copied_reads(e: ast.expr):
+    for n in ast.walk(e):
+        if isinstance(n, ast.Call) and dotted_of(n.func) in SHALLOW_COPIES and n.args and isinstance(n.args[0], ast.Attribute):
+            yield n.args[0]
+
+
 def _direct_reads(e: ast.expr):
     """Attribute reads that reach the result of `e` without passing through a copying operation."""
     if isinstance(e, ast.Attribute):
@@ -199,6 +251,16 @@ def rule_r1(ctx):
                           "changes the original",
                           how="declared type of the field → class mutability computed from the source; copying operation on the flow?",
                           construct=f"{desc} <- {norm(rd)}")
+            for rd in _shallow_copied_reads(val):
+                if _root(rd) not in orig:
+                    continue
+                n_flows += 1
+                why = shallow_copy_shares(ctx, f, rd)
+                ctx.check("R1", f"{f.local}: {desc} ← copy.copy({norm(rd)})", why is None, f, node,
+                          f"`copy.copy({norm(rd)})` is a shallow copy: the clone gets a new outer object that still shares a "
+                          f"mutable sub-object with the original ({why})",
+                          how="fields of every class the declared type admits → declared class of each field → mutability",
+                          construct=f"{desc} <- copy.copy({norm(rd)})")
     ctx.require(n_flows >= 25, f"only {n_flows} original→clone flows recognised")
     # the attribute map of a clone node is a new container
     cn = ctx.repo.func(f"{CL}:Cloner.clone_node")
